@@ -64,7 +64,7 @@ def run(tier):
             for p, cl in pts:
                 t = {"op": f"vinterp{nd}d", "x": g["axes"][0], "y": g["axes"][1], "v": g["grid"], "xq": p[0], "yq": p[1],
                      "xsrc": g["source"][0], "ysrc": g["source"][1], "vzero": g["vzero"],
-                     "fval": float(r.choice([np.nan, -7.5])), "cls": cl, "g": g}
+                     "fval": float(r.choice([np.nan, -7.5, 0.1, -999.9, 1e300])), "cls": cl, "g": g}
                 if nd == 3:
                     t.update(z=g["axes"][2], zq=p[2], zsrc=g["source"][2])
                 tasks.append(t)
@@ -84,7 +84,7 @@ def run(tier):
                 r.shuffle(combos)
                 cls = combos[:npts] + [("source",) * nd]
                 pts = [[coord(r, g["axes"][a], cl[a]) for a in range(nd)] for cl in combos[:npts]] + [list(g["source"])]
-                fv = float(r.choice([np.nan, -7.5]))
+                fv = float(r.choice([np.nan, -7.5, 0.1, -999.9, 1e300]))
                 api.append({"op": "api_ttgrid", "grid": g["grid"], "gridsize": g["gridsize"], "origin": g["origin"],
                             "source": g["source"], "vzero": g["vzero"], "points": pts, "fill_value": fv, "g": g, "cl": cls})
         out = C.run_impl(api, mode)
